@@ -792,16 +792,20 @@ func runExt(d desc) outcome {
 		for j := 0; j < xi && len(ms) < 3; j++ {
 			for l := 0; l < L; l++ {
 				idx := j*L + l
+				if idx >= len(rc) || idx >= len(qc) {
+					continue
+				}
+				// the hashed value must contain the model's column (its position in the framing is not compared)
 				pre := preimageOf(ob.rlog, ob.rout.Messages[j][l])
-				if len(pre) >= 16 && idx < len(rc) && vh.Hex(pre[len(pre)-16:]) != rc[idx] {
-					fail("ext-recv-column", "correspondence transpose/recv_out (column j*L+l of t0)", fmt.Sprintf("j=%d l=%d model %s impl %s", j, l, rc[idx], vh.Hex(pre[len(pre)-16:])))
+				if pre != nil && !bytes.Contains(pre, vh.UnHex(rc[idx])) {
+					fail("ext-recv-column", "correspondence transpose/recv_out (column j*L+l of t0)", fmt.Sprintf("j=%d l=%d model column %s not in the receiver's hash input", j, l, rc[idx]))
 				}
 				pre = preimageOf(ob.slog, ob.sout.Messages[j][0][l])
-				if len(pre) >= 16 && idx < len(qc) && vh.Hex(pre[len(pre)-16:]) != qc[idx] {
-					fail("ext-send-column", "correspondence send_q/transpose/send_out (column j*L+l of q)", fmt.Sprintf("j=%d l=%d model %s impl %s", j, l, qc[idx], vh.Hex(pre[len(pre)-16:])))
+				if pre != nil && !bytes.Contains(pre, vh.UnHex(qc[idx])) {
+					fail("ext-send-column", "correspondence send_q/transpose/send_out (column j*L+l of q)", fmt.Sprintf("j=%d l=%d model column %s not in the sender's hash input", j, l, qc[idx]))
 				}
 				pre1 := preimageOf(ob.slog, ob.sout.Messages[j][1][l])
-				if len(pre) >= 16 && len(pre1) >= 16 && !bytes.Equal(xorBytes(pre[len(pre)-16:], pre1[len(pre1)-16:]), sd.delta) {
+				if pre1 != nil && !bytes.Contains(pre1, xorBytes(vh.UnHex(qc[idx]), sd.delta)) {
 					fail("ext-send-column-delta", "correspondence send_out (second message hashes q^j xor Delta)", fmt.Sprintf("j=%d l=%d", j, l))
 				}
 			}
